@@ -45,7 +45,7 @@ BATCH = 300
 
 TIERS = {
     # REDUCE: how many of the failing cases of the seeded stratum "expand" are reduced to cores (the smallest ones)
-    "quick": {"SMALLN": 3, "NEXPAND": 4000, "NCOND": 1500, "NINCLUDE": 600, "REDUCE": 40},
+    "quick": {"SMALLN": 3, "NEXPAND": 2500, "NCOND": 1000, "NINCLUDE": 400, "REDUCE": 25},
     "thorough": {"SMALLN": 4, "NEXPAND": 120000, "NCOND": 40000, "NINCLUDE": 10000, "REDUCE": 600},
 }
 ENV0 = {"SEED": "0", "SMALLN": "3", "NEXPAND": "0", "NCOND": "0", "NINCLUDE": "0", "OUT": "/dev/null", "CASES": "/dev/null", "OBS": "/dev/null"}
@@ -112,7 +112,8 @@ def judge(rows, obs, work, tag, parts=JUDGES):
         op = os.path.join(work, "jo-%s-%d.ndjson" % (tag, i))
         bp = os.path.join(work, "jb-%s-%d.ndjson" % (tag, i))
         vlib.write_ndjson(cp, [{"id": r["id"], "case": r["case"]} for r in chunks[i]])
-        vlib.write_ndjson(op, [{"id": r["id"], "cppcheck": {"ok": obs[r["id"]]["cppcheck"]["ok"], "toks": obs[r["id"]]["cppcheck"]["toks"]},
+        vlib.write_ndjson(op, [{"id": r["id"], "cppcheck": {"ok": obs[r["id"]]["cppcheck"]["ok"], "toks": obs[r["id"]]["cppcheck"]["toks"],
+                                                            "kind": c11_run.error_kind(obs[r["id"]]["cppcheck"]["msg"])},
                                 "gcc": {"ok": obs[r["id"]]["gcc"]["ok"], "toks": obs[r["id"]]["gcc"]["toks"]}} for r in chunks[i]])
         r = tlc_step("judge", {"CASES": cp, "OBS": op, "OUT": bp}, timeout=3000, xmx="6g")
         rows_bad = vlib.read_ndjson(bp)
@@ -198,11 +199,11 @@ def minimise(pool, failing, work, max_rounds=25):
     return cores, rounds, runs
 
 
-def violation_of(core, n, ob, verdict_row):
-    key = c11_run.case_key(core)
+def violation_of(core, n, ob, verdict_row, key=None):
+    key = re.sub(r"[^A-Za-z0-9_.:+#-]+", "-", key or "core:" + c11_run.case_key(core)).strip("-")     # no blanks in a known-findings key
     payload = {"case": core, "shown": c11_run.show(core).splitlines(), "expected": verdict_row["expected"],
                "cppcheck": ob["cppcheck"], "gcc": ob["gcc"], "reduced_from": n}
-    p = vlib.save_replay(PID, key, payload)
+    p = vlib.save_replay(PID, re.sub(r"[^A-Za-z0-9_.-]+", "-", key)[:80], payload)
     what = "cppcheck -E differs from the conforming token sequence (spec = gcc); %d failing case(s) reduce to this core\n%s\n    expected: %s\n    cppcheck: %s%s" % (
         n, "\n".join("    " + l for l in payload["shown"]), " ".join(verdict_row["expected"]), " ".join(ob["cppcheck"]["toks"]),
         ("   [" + ob["cppcheck"]["msg"] + "]") if ob["cppcheck"]["msg"] else "")
@@ -230,20 +231,49 @@ def main(tier, seed, replay=None):
         by_id = {r["id"]: r for r in run_rows}
         bad_ids = sorted(i for i, b in res.items() if b["v"] == "bad")
         model_ids = sorted(i for i, b in res.items() if b["v"] == "model")
-        # every failing case of the exhaustive and the cond / include strata is reduced; of the seeded expand stratum the REDUCE smallest
-        exp_bad = sorted([i for i in bad_ids if by_id[i]["stratum"] == "expand"], key=lambda i: (c11_run.size(by_id[i]["case"]), i))
-        reduce_ids = [i for i in bad_ids if by_id[i]["stratum"] != "expand"] + exp_bad[:TIERS[tier]["REDUCE"]]
+        # deviations in a described class (Cpp!Class) are reported once per class with their smallest example; the others are reduced
+        classes = {}
+
+        def note_class(cl, case, n):
+            e = classes.setdefault(cl, {"count": 0, "case": None})
+            e["count"] += n
+            if e["case"] is None or (c11_run.size(case), c11_run.case_key(case)) < (c11_run.size(e["case"]), c11_run.case_key(e["case"])):
+                e["case"] = case
+
+        other_ids = []
+        for i in bad_ids:
+            if res[i]["class"] == "other":
+                other_ids.append(i)
+            else:
+                note_class(res[i]["class"], by_id[i]["case"], 1)
+        # of the seeded expand stratum only the REDUCE smallest unclassified failing cases are reduced
+        exp_bad = sorted([i for i in other_ids if by_id[i]["stratum"] == "expand"], key=lambda i: (c11_run.size(by_id[i]["case"]), i))
+        reduce_ids = [i for i in other_ids if by_id[i]["stratum"] != "expand"] + exp_bad[:TIERS[tier]["REDUCE"]]
+        log("%d deviations: %d in classes %s, %d others, %d to reduce" % (len(bad_ids), len(bad_ids) - len(other_ids), sorted(classes), len(other_ids), len(reduce_ids)))
         cores, rounds, extra = minimise(pool, [by_id[i]["case"] for i in reduce_ids], work)
-        # every core alone: one case per process
+        # every core alone (one case per process); a core that falls into a described class is reported under the class
         core_list = sorted(cores.items(), key=lambda kv: (c11_run.size(kv[1][0]), kv[0]))
         crow = [{"id": i + 1, "case": c} for i, (_k, (c, _n)) in enumerate(core_list)]
-        violations = []
+        core_viol = []
         if crow:
             cobs, _ = observe(pool, crow, os.path.join(work, "confirm"), batch=1)
             cres, _st = judge(crow, cobs, work, "confirm")
             for r, (_k, (c, n)) in zip(crow, core_list):
                 if r["id"] in cres and cres[r["id"]]["v"] == "bad":
-                    violations.append(violation_of(c, n, cobs[r["id"]], cres[r["id"]]))
+                    if cres[r["id"]]["class"] == "other":
+                        core_viol.append(violation_of(c, n, cobs[r["id"]], cres[r["id"]]))
+                    else:
+                        note_class(cres[r["id"]]["class"], c, n)
+        violations = []
+        class_names = sorted(classes)
+        if class_names:
+            krow = [{"id": i + 1, "case": classes[cl]["case"]} for i, cl in enumerate(class_names)]
+            kobs, _ = observe(pool, krow, os.path.join(work, "confirm-classes"), batch=1)
+            kres, _st = judge(krow, kobs, work, "confirmc")
+            for r, cl in zip(krow, class_names):
+                if r["id"] in kres and kres[r["id"]]["v"] == "bad" and kres[r["id"]]["class"] == cl:
+                    violations.append(violation_of(r["case"], classes[cl]["count"], kobs[r["id"]], kres[r["id"]], key="class:" + cl))
+        violations += core_viol
         t4 = time.time()
         nlaw, badlaw = lawf.result()
     if badlaw:
@@ -258,8 +288,8 @@ def main(tier, seed, replay=None):
         by_stratum[by_id[i]["stratum"]]["bad"] += 1
     for i in model_ids:
         by_stratum[by_id[i]["stratum"]]["model_disagreement"] += 1
-    print("C11: %d cases generated, %d defined and run, %d agree, %d model disagreements, %d differ from spec+gcc -> %d cores (%d confirmed); %d new, %d known"
-          % (len(rows), len(run_rows), stats["OK"], stats["MODEL"], stats["BAD"], len(cores), len(violations), new, known))
+    print("C11: %d cases generated, %d defined and run, %d agree, %d model disagreements, %d differ from spec+gcc -> %d classes + %d unclassified cores; %d new, %d known"
+          % (len(rows), len(run_rows), stats["OK"], stats["MODEL"], stats["BAD"], len(class_names), len(core_viol), new, known))
     samples = []
     for st in ("small", "pair", "expand", "cond", "include"):
         for r in run_rows:
@@ -276,7 +306,8 @@ def main(tier, seed, replay=None):
                 "the concatenated text lines of the main file, i.e. some macro was replaced, a group skipped or a file included" % TIERS[tier]["SMALLN"],
         "exhaustive": False,
         "generated": len(rows), "defined_and_run": len(run_rows), "judged_equal": stats["OK"], "model_disagreement": stats["MODEL"],
-        "differ_first_pass": stats["BAD"], "differ_reduced": len(reduce_ids), "differ_not_reduced": len(bad_ids) - len(reduce_ids), "cores": len(cores), "cores_confirmed_alone": len(violations), "known_findings_hit": known,
+        "differ_first_pass": stats["BAD"], "differ_by_class": {cl: classes[cl]["count"] for cl in class_names},
+        "differ_unclassified": len(other_ids), "differ_reduced": len(reduce_ids), "differ_not_reduced": len(other_ids) - len(reduce_ids), "cores": len(cores), "cores_reported": len(core_viol), "known_findings_hit": known,
         "reduction_rounds": rounds, "reduction_extra_cases": extra, "by_stratum": by_stratum, "law_cases": nlaw, "processes": 2 * nb,
         "model_disagreement_samples": [{"case": c11_run.show(by_id[i]["case"], i).splitlines(), "spec": " ".join(res[i]["expected"]),
                                         "gcc": " ".join(obs[i]["gcc"]["toks"]), "gcc_msg": obs[i]["gcc"]["msg"]} for i in model_ids[:5]],
